@@ -135,6 +135,16 @@ def prove(prop_files, dep_targets):
     """Build dependencies with make, then compile the property/instance files themselves with coqc so
     that their Print Assumptions output belongs to this run.  Returns a dict."""
     res = {"obligations": 0, "discharged": 0, "failed": [], "assumptions": {}, "log": "", "checker_cmd": ""}
+    # the source tie of the property (Inst/Cxx_src.v) goes with its instance file
+    prop_files = list(prop_files)
+    dep_targets = list(dep_targets)
+    for pf in list(prop_files):
+        m = re.search(r"Inst/(C\d\d)_inst\.v$", pf)
+        if m and os.path.exists(os.path.join(COQ, "theories/Inst/%s_src.v" % m.group(1))):
+            prop_files.append("theories/Inst/%s_src.v" % m.group(1))
+            for d in ("theories/Gen/Sources.vo", "theories/Inst/Golden.vo"):
+                if d not in dep_targets:
+                    dep_targets.append(d)
     with Lock():
         rc, log, dt = make(dep_targets)
         res["log"] += log[-4000:]
@@ -153,6 +163,8 @@ def prove(prop_files, dep_targets):
                 # find which statement broke: the error location
                 res["failed"].append({"file": pf, "why": "coqc failed", "log": (out + err)[-3000:],
                                       "theorem": locate_failure(src, err)})
+                if pf.endswith("_src.v"):
+                    res["failed"][-1]["why"] = "source tie: " + source_tie_diff(pf)
                 continue
             # parse Print Assumptions output: blocks "Closed under the global context" or "Axioms:"
             closed = out.count("Closed under the global context")
@@ -175,6 +187,29 @@ def prove(prop_files, dep_targets):
         res["failed"].append({"file": forb[0][0], "why": "forbidden construct (axiom-declaring command, admitted proof or disabled kernel check)",
                               "log": "\n".join("%s:%d: %s" % f for f in forb[:20])})
     return res
+
+
+def _pstr_pairs(text):
+    out = {}
+    for a, b in re.findall(r"\(\[([0-9;]*)\]%N, \[([0-9;]*)\]%N\)", text):
+        out["".join(chr(int(x)) for x in a.split(";") if x)] = "".join(chr(int(x)) for x in b.split(";") if x)
+    return out
+
+
+def source_tie_diff(pf):
+    """Which of the tied functions read differently from the validated ones (for the replay file)."""
+    try:
+        pid = re.search(r"(C\d\d)_src", pf).group(1)
+        g = open(os.path.join(COQ, "theories/Inst/Golden.v")).read()
+        golden = _pstr_pairs(g[g.index("Definition GOLDEN"):g.index("Definition under")])
+        cur = _pstr_pairs(open(os.path.join(COQ, "theories/Gen/Sources.v")).read())
+        line = re.search(r"Definition golden_%s : list pstr := (.*)\.\n" % pid, g).group(1)
+        pre = ["".join(chr(int(x)) for x in m.split(";") if x) for m in re.findall(r"\[([0-9;]*)\]%N", line)]
+        und = lambda n: any(n.startswith(q) for q in pre)
+        ch = sorted(n for n in golden if und(n) and cur.get(n) != golden[n]) + sorted("+" + n for n in cur if und(n) and n not in golden)
+        return "changed since the model was validated: " + (", ".join(ch[:12]) or "(none found)")
+    except Exception as e:  # noqa: BLE001
+        return "could not compute the difference (%s)" % e
 
 
 def locate_failure(src, err):
